@@ -139,6 +139,19 @@ PROPS = {
         assumptions=["initialisation order (TDZ) is observed by executing the output, not derived statically",
                      "a site that is never evaluated (body of an arrow nobody calls) is only checked statically"],
     ),
+    "C10": dict(
+        mc=[dict(module="MC_C10")], group_by=lambda cid: cid.split("#")[0], judge="Judge_C10", want=["js"],
+        rule="ordered (prefix, statement, suffix) triples: 9 statements whose lowering consults visitor state (Fragment tag, "
+             "fragment, call-child slot, captured-identifier slot, unbound-identifier slot, nested components, KeepAlive, v-model, "
+             "two temporaries) x distractor sequences over {assignment to the same-named variable, JSX-valued assignment, other JSX "
+             "needing a temporary, fragment, <Fragment>, function/arrow/block bodies with and without JSX, arrow assigning the "
+             "variable, user imports of Fragment/createVNode/h from 'vue'}; each triple is transformed and executed alone and "
+             "composed; TLC compares the two recorded values and judges both against the denotation",
+        exhaustive=dict(quick=True, thorough=True),
+        assumptions=["when prefix/suffix write a binding the statement references, only the denotation (not equality with the "
+                     "stand-alone run) is demanded, with the slot content left open",
+                     "pragma annotations are module-wide by C15 and are not distractors"],
+    ),
     "C02": dict(
         mc=[dict(module="MC_C02")], judge="Judge_C02", want=["js"],
         rule="TLC enumerates every JSX-text string over the symbol alphabet up to the length bound in every "
